@@ -9,6 +9,7 @@ From ADV Require Import Base.Num C13.Model C13.Spec C13.Spec2 C13.ProofsGlue C13
 From ADV Require Import C13.Spec3 C13.ProofsAnchors3.
 From ADV Require Import C13.Spec4 C13.Model4 C13.ProofsAnchors4.
 From ADV Require Import C13.Spec6 C13.ProofsAnchors6.
+From ADV Require Import C13.Model7 C13.Proofs7.
 Import ListNotations.
 Local Open Scope R_scope.
 
@@ -294,3 +295,35 @@ Proof. exact ls_sep_example. Qed.
 Example BesselI_series_hypotheses_satisfiable : bessel_q 0 (/ 10 ^ 8) 2 < 1 /\ 0 < bessel_partial 0 (/ 10 ^ 8) 2 /\
   bessel_rad 0 (/ 10 ^ 8) 2 / bessel_partial 0 (/ 10 ^ 8) 2 <= / 10 ^ 33.
 Proof. exact bessel_q_example. Qed.
+
+(* ---- round 7: code whose purpose is to stay inside the binary64 range (R-models of Model7.v; rounding not modelled) ---- *)
+(* regularised_gamma_prefix: whichever guarded formula the overflow / underflow tests select (direct product, scaled power, log form;
+   a < 10: product or its fallback), the value is (z/L)^a e^(L-z) / sum with L = max(10, a) -- for ALL a > 0, z > 0, no bounds *)
+Theorem regularised_gamma_prefix_same_value_on_every_guarded_branch : forall a z sum, 0 < a -> 0 < z ->
+  reg_prefix a z sum = Rpower (z / Rmax 10 a) a * exp (Rmax 10 a - z) / sum.
+Proof. exact reg_prefix_value. Qed.
+Theorem regularised_gamma_prefix_small_a_fallback_same_value : forall a z, 0 < a -> 0 < z ->
+  Rpower (z * exp ((10 - z) / a) / 10) a = Rpower (z / 10) a * exp (10 - z).
+Proof. exact reg_prefix_small_fallback. Qed.
+(* non-vacuity: each guard outcome is selected by some argument, and the far-upper-tail value is tiny but representable *)
+Example regularised_gamma_prefix_every_branch_selected :
+  orb (rleb (Rmin (50 * ln (800 / 50)) (50 - 800)) MinLog7) (rleb MaxLog7 (Rmax (50 * ln (800 / 50)) (50 - 800))) = true /\
+  orb (rleb ((50 - 800) / 50) MinLog7) (rleb MaxLog7 ((50 - 800) / 50)) = false /\
+  orb (rleb (Rmin (50 * ln (60 / 50)) (50 - 60)) MinLog7) (rleb MaxLog7 (Rmax (50 * ln (60 / 50)) (50 - 60))) = false /\
+  orb (rleb ((10 - 8000) / 10) MinLog7) (rleb MaxLog7 ((10 - 8000) / 10)) = true /\
+  / 10 ^ 269 < Rpower (800 / 50) 50 * exp (50 - 800) < / 10 ^ 265.
+Proof. exact reg_prefix_branches_example. Qed.
+(* bessel_i0 / bessel_i1, x >= 500: the split exponential computes e^x P(1/x) / sqrt x, and its partial product never exceeds the result *)
+Theorem bessel_i_large_x_split_exponential_value : forall P x, bessel_large P x = exp x * P (1 / x) / sqrt x.
+Proof. exact bessel_large_value. Qed.
+Theorem bessel_i_large_x_partial_product_below_result : forall P x, 0 <= x ->
+  bessel_large P x = bessel_large_inter P x * exp (x / 2) /\
+  Rabs (bessel_large_inter P x) <= Rabs (bessel_large P x).
+Proof. exact bessel_large_inter_le. Qed.
+(* non-vacuity: at x = 713.9 > 709.8, e^x exceeds MaxFloat64 while e^(x/2) < 2^520 and the model values of I_0 > I_1 > 0 are below MaxFloat64 *)
+Example bessel_i_large_x_window_where_exp_overflows :
+  exp (7098 / 10) > (2 - / 2 ^ 52) * 2 ^ 1023 /\
+  exp (7139 / 10 / 2) < 2 ^ 520 /\
+  0 < bessel_i0_large (7139 / 10) < (2 - / 2 ^ 52) * 2 ^ 1023 /\
+  0 < bessel_i1_large (7139 / 10) < bessel_i0_large (7139 / 10).
+Proof. exact bessel_i0_large_window_example. Qed.
